@@ -126,30 +126,38 @@ theorem call_ok (s : CS) (a b : Int) (h : CSInv s) : ∃ s', call s a b = .ok s'
     refine ⟨_, rfl, ?_⟩
     simp [CSInv, setAt]; omega
 
-theorem ret_ok (s : CS) (n : Nat) (h : CSInv s) : ∃ s', ret s n = .ok s' ∧ CSInv s' := by
+theorem ret_ok (s : CS) (n : Nat) (hn : 1 ≤ n) (h : CSInv s) : ∃ s', ret s n = .ok s' ∧ CSInv s' := by
   have h1 := h.1
   have h2 := h.2
   unfold ret
-  refine ⟨_, rfl, ?_⟩
-  simp only [CSInv]
-  by_cases c : s.top - (n : Int) < 0
-  · simp only [c, if_true]; omega
-  · simp only [c, if_false]; omega
+  by_cases c : s.top < (n : Int)
+  · simp only [c, if_true]
+    refine ⟨_, rfl, ?_⟩
+    simp only [CSInv]; omega
+  · simp only [c, if_false]
+    have hr : 0 ≤ s.top - (n : Int) ∧ s.top - (n : Int) < (s.stack.length : Int) := by omega
+    simp only [hr, and_self, if_true]
+    refine ⟨_, rfl, ?_⟩
+    simp only [CSInv]; omega
+
+/-- every `ret` of the sequence pops at least one entry (the scanner's call sites are `ret(1)` and `ret(2)`) -/
+def RetsPositive (ops : List StackOp) : Prop := ∀ n, StackOp.ret n ∈ ops → 1 ≤ n
 
 /-- C01 call stack: every finite sequence of call / ret keeps every stack index in range -/
-theorem callstack_safe (ops : List StackOp) (s : CS) (h : CSInv s) : (runOps ops s).isOk = true := by
+theorem callstack_safe (ops : List StackOp) (hp : RetsPositive ops) (s : CS) (h : CSInv s) : (runOps ops s).isOk = true := by
   induction ops generalizing s with
   | nil => rfl
   | cons op ops ih =>
+    have hp' : RetsPositive ops := fun n hn => hp n (List.mem_cons_of_mem _ hn)
     cases op with
     | call a b =>
       obtain ⟨s', hs, hi⟩ := call_ok s a b h
       simp only [runOps, hs, bind, Except.bind]
-      exact ih s' hi
+      exact ih hp' s' hi
     | ret n =>
-      obtain ⟨s', hs, hi⟩ := ret_ok s n h
+      obtain ⟨s', hs, hi⟩ := ret_ok s n (hp n (List.mem_cons_self ..)) h
       simp only [runOps, hs, bind, Except.bind]
-      exact ih s' hi
+      exact ih hp' s' hi
 
 /-- the initial state of NewLexer: empty stack, top = 0 -/
 example : CSInv { stack := [], top := 0, cs := 0, p := 0 } := by simp [CSInv]
